@@ -9,8 +9,10 @@ checks_for() { case "$1" in
   C01_*) echo "C01";; C02_*) echo "C02";; C03_a) echo "C03 C17";; C03_b) echo "C03";; C04_*) echo "C04";; C05_a) echo "C05 C12";; C05_b) echo "C05";;
   C06_a) echo "C06";; C06_b) echo "C06 C17 C03";; C07_a) echo "C07";; C07_b) echo "C07 C10";; C08_a) echo "C08 C17";; C08_b) echo "C08";; C09_*) echo "C09";;
   C10_*) echo "C10";; C11_*) echo "C11";; C12_*) echo "C12";; C13_*) echo "C13";; C14_*) echo "C14";; C15_*) echo "C15 C09";; C16_*) echo "C16";;
-  C17_*) echo "C17";; C18_*) echo "C18";; C19_*) echo "C19";; C20_*) echo "C20";; esac; }
-for d in /verif/seeded/C??_?; do
+  C17_*) echo "C17";; C18_*) echo "C18";; C19_*) echo "C19";; C20_*) echo "C20";;
+  R2_C01_a) echo "C01 C09";; R2_C01_b) echo "C01";; R2_C02_*) echo "C02";; R2_C03_*) echo "C03";; R2_C04_*) echo "C04";; R2_C08_*) echo "C08";; R2_C09_*) echo "C09";;
+  R2_C10_*) echo "C10";; R2_C11_*) echo "C11";; R2_C17_*) echo "C17";; R2_C18_a) echo "C18 C04";; R2_C18_b) echo "C18 C10";; esac; }
+for d in /verif/seeded/C??_? /verif/seeded/R2_C??_?; do
   id=$(basename $d)
   (cd $WT && git checkout -q -- . && git apply $d/patch.diff) || { echo "$id APPLY_FAILED" >> "$OUT"; continue; }
   for c in $(checks_for $id); do
